@@ -166,6 +166,16 @@ def action_coverage(res):
     return out
 
 
+def _die_with_parent():
+    """Child is killed when the harness dies (PR_SET_PDEATHSIG = 1, SIGKILL = 9)."""
+    try:
+        import ctypes
+
+        ctypes.CDLL("libc.so.6").prctl(1, 9)
+    except Exception:
+        pass
+
+
 def make_workdir(prefix="tlc_"):
     return tempfile.mkdtemp(prefix=prefix)
 
@@ -223,14 +233,21 @@ def run(
     e = dict(os.environ)
     e.update(env or {})
     t0 = time.time()
+    proc = subprocess.Popen(cmd, cwd=workdir, env=e, stdout=subprocess.PIPE, stderr=subprocess.STDOUT, text=True,
+                            preexec_fn=_die_with_parent)
     try:
-        p = subprocess.run(cmd, cwd=workdir, env=e, capture_output=True, text=True, timeout=timeout)
+        stdout, _ = proc.communicate(timeout=timeout)
     except subprocess.TimeoutExpired:
-        subprocess.run(["pkill", "-f", meta], check=False)
+        proc.kill()
+        proc.communicate()
         raise MachineryError("TLC timed out after %ss on %s" % (timeout, module))
+    except BaseException:
+        proc.kill()
+        raise
     finally:
         shutil.rmtree(meta, ignore_errors=True)
-    out = p.stdout + "\n" + p.stderr
+    p = proc
+    out = stdout
     res = parse_output(out)
     res.wall = time.time() - t0
     res.returncode = p.returncode
